@@ -9,10 +9,13 @@ For concurrent phases the real schedule is not observable: the oracle states the
 and everything schedule-dependent (value kept for a raced key, order inside a vector) is masked."""
 import collections
 import itertools
+import concurrent.futures as cf
 import json
 import os
+import subprocess
 
 from .. import lib
+from .. import c19_contention
 
 PROP = "C19"
 PROP_FILE = "Props/C19.v"
@@ -798,6 +801,29 @@ def shard_tables(binary):
     return "\n".join(prelude) + "\n", tables
 
 
+def run_histories(binary, suite, lines):
+    """lib.ds_run; when a batch kills the driver (abort / SIGSEGV: the batch's results are lost) every history is run again in a
+    process of its own, so that the crash is attributed to a history: result = the output line, or dict(how, err) if it died"""
+    try:
+        return lib.ds_run(binary, suite, lines)
+    except lib.Infra as e:
+        if "results (rc=" not in str(e):
+            raise
+        print("note: the history driver died in a batch (%s); re-running %d histories one process each" % (str(e)[:160].replace("\n", " "), len(lines)))
+
+    def one(line):
+        try:
+            p = subprocess.run([binary, suite], input=line + "\n", stdout=subprocess.PIPE, stderr=subprocess.PIPE, text=True, timeout=300)
+        except subprocess.TimeoutExpired:
+            return dict(how="no answer within 300 s", err="")
+        outl = p.stdout.splitlines()
+        if p.returncode != 0 or len(outl) != 1:
+            return dict(how="exit status %s, %d result lines" % (p.returncode, len(outl)), err=p.stderr.strip()[-200:])
+        return outl[0]
+    with cf.ThreadPoolExecutor(lib.NCPU) as ex:
+        return list(ex.map(one, lines))
+
+
 PRELUDE = ("From Coq Require Import List ZArith.\nFrom AV Require Import Index.IndexModel.\nImport ListNotations.\n"
            "Open Scope Z_scope.\n")
 
@@ -813,21 +839,40 @@ def tie(tier, seed, replay):
     binary, out = lib.harness_build(HARNESS)
     if binary is None:
         raise lib.Infra("ds_index does not build against /repo:\n" + out[-3000:])
+    cont = None
     if replay:
         cases = [json.load(open(replay))["case"]]
+        if cases[0].get("family") == c19_contention.FAMILY:
+            # a big concurrent fill: judged by the specification only, several rounds (the schedule is not reproducible)
+            cont = c19_contention.replay(binary, cases[0])
+            return dict(evaluations=cont["evaluations"], distinct_nontrivial=1, rule="replay of one contention case, %d rounds" % cont["evaluations"],
+                        samples=[], distribution=cont["distribution"], mismatches=cont["mismatches"])
     else:
-        cases = load_corpus() + gen_cases(tier, seed)
+        corpus = load_corpus()
+        # CONTENTION family first: one process per case, one case at a time, before the machine is loaded by the batch runs
+        cont = c19_contention.run(binary, tier, seed)
+        for c in corpus:
+            if c.get("family") == c19_contention.FAMILY:
+                r = c19_contention.replay(binary, c)
+                cont["mismatches"] += r["mismatches"]
+                cont["evaluations"] += r["evaluations"]
+        cases = [c for c in corpus if c.get("family") != c19_contention.FAMILY] + gen_cases(tier, seed)
     hprelude, tables = shard_tables(binary)
     # implementation
     impl = [None] * len(cases)
     tids = [None] * len(cases)
+    crashed = {}
     by_suite = collections.defaultdict(list)
     for idx, c in enumerate(cases):
         by_suite[c["suite"]].append(idx)
     for suite, idxs in by_suite.items():
-        lines = lib.ds_run(binary, suite, [case_line(cases[i]) for i in idxs])
+        lines = run_histories(binary, suite, [case_line(cases[i]) for i in idxs])
         for i, l in zip(idxs, lines):
-            impl[i], tids[i] = parse_impl(l)
+            if isinstance(l, dict):
+                crashed[i] = l
+                impl[i], tids[i] = ["crash"], []
+            else:
+                impl[i], tids[i] = parse_impl(l)
     # model: BATCH histories per Eval
     exprs = []
     for b in range(0, len(cases), BATCH):
@@ -839,7 +884,7 @@ def tie(tier, seed, replay):
             model.append(parse_model(h))
     if len(model) != len(cases):
         raise lib.Infra("model returned %d histories for %d cases" % (len(model), len(cases)))
-    mism = []
+    mism = list(cont["mismatches"]) if cont else []
     dist = collections.Counter()
     ops_dist = collections.Counter()
     seen = set()
@@ -847,9 +892,16 @@ def tie(tier, seed, replay):
     unequal_eqn_fail = []
     n_viol = 0
     n_par = 0
-    for c, iv, mv in zip(cases, impl, model):
+    for ci_, (c, iv, mv) in enumerate(zip(cases, impl, model)):
         t = c["type"]
         dist[t] += 1
+        if ci_ in crashed:
+            # the driver process died on this history (run alone): memory unsafety behind a safe API, whatever the history
+            why = crashed[ci_]
+            reason = "the driver process died on this history run alone (%s; stderr: %s)" % (why["how"], why["err"] or "-")
+            mism.append(dict(case=c, impl=why, model=mv, spec=reason, kind="impl_violates_spec", known=None,
+                             what="index type %s: %s  [history: %s]" % (t, reason, case_line(c))))
+            continue
         for o in c["ops"]:
             ops_dist[o[0]] += 1
         if nontrivial(c):
@@ -905,15 +957,23 @@ def tie(tier, seed, replay):
         print("note: CRelNoIndex values created in pools of different sizes: %d histories, merge equation total' = total + delta "
               "fails on %d of them (outside C19's stated precondition, see c19_noindex_merge_unequal_refuted); "
               "conservation over new+delta+total held on all" % (n_unequal, nfail))
-    return dict(evaluations=len(cases), distinct_nontrivial=len(seen),
+    ncont = cont["evaluations"] if cont else 0
+    if cont:
+        samples = samples[:10] + cont["samples"][:3]
+    return dict(evaluations=len(cases) + ncont, distinct_nontrivial=len(seen) + ncont,
                 rule="per index type: every sequence of <= 3 (quick) / 4 (thorough) inserts over {new,delta,total} x 2 keys and of <= 3 / 5 inserts over {delta,total} x 2 keys, "
                      "followed by merge and all reads (present and absent keys, iteration, len, is_empty, combined view); plus random histories of 3-22 operations "
                      "(insert, insert_if_not_present, move either direction, merge, freeze / unfreeze, reads, parallel phases of 1-8 tasks under rayon pools of 1,2,3,8 threads or std threads) "
-                     "with a full read-out at the end; non-trivial = at least one write and one lookup / iteration; distinct = distinct harness input line",
+                     "with a full read-out at the end; non-trivial = at least one write and one lookup / iteration; distinct = distinct harness input line; "
+                     "plus the CONTENTION family (gen/c19_contention.py, judged by the specification only): per concurrent index type big concurrent fills "
+                     "(2*10^5 inserts quick / 8*10^5 thorough from 4-16 std threads or the workers of a rayon pool larger than the creating pool, into 1-8 keys / "
+                     "4-8 shards, or 10^4-10^5 keys; insert_if_not_present with every key raced by every thread), one process per case, then freeze and a complete "
+                     "read-out; a crash / hang of that process is a failing input",
                 samples=samples[:13],
                 distribution=dict(by_type=dict(dist), by_family=dict(fam), by_operation=dict(ops_dist), histories_with_parallel_phase=n_par,
                                   histories_leaving_freeze_protocol=n_viol, cni_unequal_shard_counts=n_unequal,
-                                  dashmap_shards=SUITES),
+                                  dashmap_shards=SUITES, contention=(cont["distribution"] if cont else None),
+                                  histories_whose_driver_process_died=len(crashed)),
                 mismatches=mism,
                 extra=dict(engine_on_model_types_vs_real_index_fields=(dict(conc["coverage"], index_field_comparisons=conc["evaluations"], rule=conc["rule"]) if conc else None), partial=[
                     "Engine/ConcreteEval.v: the generated `len_estimate() <= len_estimate()` join-order decision is covered by the simulation theorem only for plans without reorderable simple joins (c19_engine_real_len_estimate_partial); with them the decision is an oracle, as in Engine/Eval.v",
@@ -926,6 +986,7 @@ def tie(tier, seed, replay):
                                                    examples=[e for e in unequal_eqn_fail if e][:3])),
                 trusted_base=["ds_index (Rust harness) + gen/props/c19.py renderers, canonicaliser and the python multimap/set/map oracle",
                               "DashMap shard locks, RwLock, hashbrown / std HashMap / HashSet / Vec meet their documented semantics; every DashMap entry operation is one atomic step (ConcIndex.v quantifies over all orders of those steps)",
+                              "CONTENTION family: the schedule is whatever the machine produces (not reproducible, not observed); a race that needs real overlap is found with the frequency measured in DESIGN 10.5, not with certainty",
                               "the real schedule of a parallel phase is not observed: the implementation is compared with the specified final content, the model is run under one random interleaving"],
                 assumptions=["keys and values are modelled as unbounded Z; the harness uses (i32,), (i32,i32) keys and usize / (i32,) values",
                              "hash-map iteration order and DashMap shard placement are arbitrary oracles in the theorems; the tie instantiates them with list reversal and the placement measured on the real DashMap",
